@@ -2,6 +2,10 @@ import Driver.ProgJson
 import Heph.Model.Check
 import Heph.Model.CondType
 import Heph.Model.GenVar
+import Heph.Model.GenFuncRef
+import Heph.Model.GenNew
+import Heph.Model.GenMatch
+import Heph.Model.GenSig
 /-! ops of the C01 family.
   `check.wt` {program export + "bt": {"any","void","boolean","char","string","integer": index into tt,
   "builtins": [indices]}} → {"r": "ok" | {"path": [...], "reason": tag, "detail": text},
@@ -24,8 +28,192 @@ def tally (tags : List String) : Json :=
 def failJson (o : Ob) : Json :=
   Json.arr #[ofStrList o.path, Json.str o.tag, Json.str o.j.detail, Json.str o.j.kinds]
 
+/-! ### decision points of the generator (batch ops: one request per program, `"calls"` = recorded calls) -/
+
+def parseVars (tbl : Array Ty) (j : Json) (k : String) : Except String (List VarInfo) := do
+  (← getArr j k).toList.mapM fun v => do
+    pure ({ name := ← getStr v "name", ty := ← tyAt tbl v "t", final := ← getBool v "final",
+            outer := ← getBool v "outer" } : VarInfo)
+
+/-- `{"name", "t", "params": [idx], "fn": idx?}`; without `"fn"` the constructor is never read -/
+def parseAttr (tbl : Array Ty) (a : Json) : Except String AttrSig := do
+  let fn ← tyOptAt tbl a "fn"
+  pure { name := ← getStr a "name", ty := ← tyAt tbl a "t", params := ← tyListAt tbl a "params",
+         fnCon := fn.getD (.ext "no-function-type") }
+
+def parseMode (j : Json) : AttrMode :=
+  match j.getObjVal? "mode" with
+  | .ok (Json.str "last") => .lastArg
+  | _ => .whole
+
+def batch (j : Json) (f : Json → Except String Json) : Except String Json := do
+  let cs ← getArr j "calls"
+  let out ← cs.toList.mapM f
+  pure (res (Json.arr out.toArray))
+
 def handle : Handler := fun op j =>
   match op with
+  | "check.sigcompat" => some (do
+      -- calls: {"attr", "etype", "m", "sig", "sub", "mode"} → the model's answer of `_is_sigtype_compatible`
+      let tbl ← parseTable j
+      let extra ← parsePairs j "extra"
+      batch j fun c => do
+        let a ← parseAttr tbl (← c.getObjVal? "attr")
+        pure (resToJson (sigtypeCompatible extra a (← tyAt tbl c "etype") (← parseTMap tbl c "m")
+          (← getBool c "sig") (← getBool c "sub") (parseMode c))))
+  | "check.funcallref" => some (do
+      -- calls: {"vars", "objs": [{"t","name","inst"}] | null, "etype", "sub", "jl",
+      --         "out": null | {"name","norecv","args"}} → {"ok", "cands", "stage"}
+      let tbl ← parseTable j
+      let extra ← parsePairs j "extra"
+      batch j fun c => do
+        let vs ← parseVars tbl c "vars"
+        let objs ← match c.getObjVal? "objs" with
+          | .ok (Json.arr a) => a.toList.mapM fun o => do
+              pure ({ attrTy := ← tyAt tbl o "t", name := ← getStr o "name", inst := ← parseTMap tbl o "inst" } : MatchedObj)
+          | _ => pure []
+        let et ← tyAt tbl c "etype"
+        let sub ← getBool c "sub"
+        let jl ← getBool c "jl"
+        let o := c.getObjValD "out"
+        let out ← if o.isNull then pure FuncCallRefOut.none else do
+          pure (FuncCallRefOut.call (← getStr o "name") (← getBool o "norecv") (← tyListAt tbl o "args"))
+        let stage := if !(funcCallRefVars extra vs et sub jl).isEmpty then "vars"
+          else if objs.isEmpty then "none" else "objs"
+        pure (Json.mkObj [("ok", Json.bool (funcCallRefRefines structEqL extra vs objs et sub jl out)),
+          ("cands", ofStrList ((funcCallRefCandidates extra vs objs et sub jl).map (·.name))),
+          ("stage", Json.str stage)]))
+  | "check.funcref" => some (do
+      -- calls: {"funcs": [attr + "m"], "self", "etype", "out": null | {"name", "sig"}}
+      --  → {"ok": the outcome refines `funcRefCandidates`, "cands", "compat": every declaration handed over by
+      --     `_get_matching_function_declarations` passes `_is_sigtype_compatible(.., True, False)` under its map}
+      let tbl ← parseTable j
+      batch j fun c => do
+        let et ← tyAt tbl c "etype"
+        let fs ← (← getArr c "funcs").toList.mapM fun f => do pure (← parseAttr tbl f, ← parseTMap tbl f "m")
+        let self ← getStr c "self"
+        let cands := funcRefCandidates (fs.map (·.1)) self
+        let o := c.getObjValD "out"
+        let ok ← if cands.isEmpty then pure true else
+          if o.isNull then pure false else do
+            let n ← getStr o "name"
+            let sg ← tyAt tbl o "sig"
+            pure (cands.any (fun a => a.name == n) && structEq sg et)
+        let compat := fs.all fun (a, m) => sigtypeCompatible [] a et m true false .whole == .yes
+        pure (Json.mkObj [("ok", Json.bool ok), ("cands", ofStrList (cands.map (·.name))),
+          ("compat", Json.bool compat)]))
+  | "check.classdecls" => some (do
+      -- calls: {"etype", "void", "sub", "sig", "self", "classes": [{"name", "attrs": [attr + "has_t"]}],
+      --         "maps": [map …], "out": [[class name, attr name, map] …]}
+      --  → {"ok": the recorded list is the model's list (names and maps by value, in order), "n": its length}
+      let tbl ← parseTable j
+      let extra ← parsePairs j "extra"
+      batch j fun c => do
+        let classes ← (← getArr c "classes").toList.mapM fun x => do
+          let attrs ← (← getArr x "attrs").toList.mapM fun a => do
+            let has ← getBool a "has_t"
+            if has then pure (true, ← parseAttr tbl a)
+            else pure (false, ({ name := ← getStr a "name", ty := .nothing, params := [], fnCon := .nothing } : AttrSig))
+          pure (← getStr x "name", attrs)
+        let parseM (m : Json) : Except String Ty.TMap := parseTMap tbl (Json.mkObj [("m", m)]) "m"
+        let maps ← (← getArr c "maps").toList.mapM fun m => do
+          if m.isNull then pure none else pure (some (← parseM m))
+        let out ← (← getArr c "out").toList.mapM fun o => do
+          let p ← o.getArr?
+          if p.size != 3 then throw "triple expected"
+          pure (← p[0]!.getStr?, ← p[1]!.getStr?, ← parseM p[2]!)
+        let mapEq (a b : Ty.TMap) : Bool :=
+          a.length == b.length && (a.zip b).all fun (x, y) => structEq x.1 y.1 && structEq x.2 y.2
+        let r := matchingClassDecls extra (← tyAt tbl c "void") (← tyAt tbl c "etype") (← getBool c "sub")
+          (← getBool c "sig") (← getStr c "self") classes maps
+        match r with
+        | none => pure (Json.mkObj [("ok", Json.bool false), ("n", Json.str "maps ran out")])
+        | some l =>
+            let ok := l.length == out.length && (l.zip out).all fun ((cn, a, m), (cn', an', m')) =>
+              cn == cn' && a.name == an' && mapEq m m'
+            pure (Json.mkObj [("ok", Json.bool ok), ("n", Json.num (JsonNumber.fromNat l.length)),
+              ("names", Json.arr (l.map fun (cn, a, _) => Json.arr #[Json.str cn, Json.str a.name]).toArray)]))
+  | "check.firstcompat" => some (do
+      -- calls: {"attrs": [attr], "etype", "m", "sig", "out": attr name | null} → {"ok", "model": name | null}
+      let tbl ← parseTable j
+      batch j fun c => do
+        let attrs ← (← getArr c "attrs").toList.mapM (parseAttr tbl)
+        let r := firstCompatible attrs (← tyAt tbl c "etype") (← parseTMap tbl c "m") (← getBool c "sig")
+        let out := ((c.getObjValD "out").getStr?).toOption
+        pure (Json.mkObj [("ok", Json.bool (r.map (·.name) == out)),
+          ("model", match r with | some a => Json.str a.name | none => Json.null)]))
+  | "check.readfits" => some (do
+      -- {tt, "bt", calls: {"attr": {"t"}, "etype", "m"}} → the type READ from the attribute through the receiver map
+      -- (the checker's `readType`: a projection yields its upper capture bound, rule 2) is assignable to the
+      -- expected type according to the specification-side decider
+      let tbl ← parseTable j
+      let lt ← parseLangTypes tbl j
+      batch j fun c => do
+        let a ← c.getObjVal? "attr"
+        pure (Json.bool (asgB lt (readType lt (← tyAt tbl a "t") (← parseTMap tbl c "m")) (← tyAt tbl c "etype"))))
+  | "check.overridesig" => some (do
+      -- calls: {"params": [idx], "ret", "m", "tpnames": [str], "renaming": map, "out": {"params": [idx], "ret"}}
+      --  → {"ok": the signature handed to gen_func_decl is the model's, "arity": same number of parameters}
+      let tbl ← parseTable j
+      batch j fun c => do
+        let names ← (← getArr c "tpnames").toList.mapM fun x => x.getStr?
+        let (ps, r) := overrideSig (← parseTMap tbl c "m") names (← parseTMap tbl c "renaming")
+          (← tyListAt tbl c "params") (← tyAt tbl c "ret")
+        let o ← c.getObjVal? "out"
+        let ops ← tyListAt tbl o "params"
+        pure (Json.mkObj [("ok", Json.bool (structEqL ps ops && structEq r (← tyAt tbl o "ret"))),
+          ("arity", Json.bool (ps.length == ops.length))]))
+  | "check.callargs" => some (do
+      -- calls: {"params": [{"t","vararg"}], "m", "counts": [nat], "args": [idx]} → {"ok", "n"}
+      let tbl ← parseTable j
+      batch j fun c => do
+        let ps ← (← getArr c "params").toList.mapM fun x => do
+          pure ({ ty := ← tyAt tbl x "t", vararg := ← getBool x "vararg" } : CallParam)
+        let r := callArgsExpected (← parseTMap tbl c "m") ps (← getNatList c "counts")
+        let args ← tyListAt tbl c "args"
+        pure (Json.mkObj [("ok", Json.bool (match r with | some l => structEqL l args | none => false)),
+          ("n", match r with | some l => Json.num (JsonNumber.fromNat l.length) | none => Json.null)]))
+  | "check.subclass" => some (do
+      -- calls: {"etype", "ename", "sub", "classes": [{"name","regular","parameterized","t"}], "out": name | null}
+      --  → {"ok": the outcome refines `subclassCandidates`, "cands"}
+      let tbl ← parseTable j
+      batch j fun c => do
+        let cls ← (← getArr c "classes").toList.mapM fun x => do
+          pure ({ name := ← getStr x "name", regular := ← getBool x "regular",
+                  parameterized := ← getBool x "parameterized", ty := ← tyAt tbl x "t" } : ClassCand)
+        let et ← tyAt tbl c "etype"
+        let en := ((c.getObjValD "ename").getStr?).toOption.getD (attrName et)
+        let sub ← getBool c "sub"
+        let out := ((c.getObjValD "out").getStr?).toOption
+        pure (Json.mkObj [("ok", Json.bool (subclassRefines cls et en sub out)),
+          ("cands", ofStrList ((subclassCandidates cls et en sub).map (·.name)))]))
+  | "check.gennew" => some (do
+      -- calls: {"etype", "ename", "cls": {"name","t","tparams","fields"} | null, "any", "void", "black", "tvnames",
+      --         "insts", "args": expected types handed to generate_expr, "out": {"kind", "t"?, "nargs"?}}
+      --  → {"plan": kind of the model's plan, "ok": the recorded outcome is the plan}
+      let tbl ← parseTable j
+      batch j fun c => do
+        let et ← tyAt tbl c "etype"
+        let en := ((c.getObjValD "ename").getStr?).toOption.getD (attrName et)
+        let cj := c.getObjValD "cls"
+        let cls ← if cj.isNull then pure none else do
+          pure (some ({ name := ← getStr cj "name", ty := ← tyAt tbl cj "t", tparams := ← tyListAt tbl cj "tparams",
+                        fields := ← tyListAt tbl cj "fields" } : NewClass))
+        let strs (k : String) : Except String (List String) := do
+          (← getArr c k).toList.mapM fun x => x.getStr?
+        let plan := genNewPlan (isFunctionType et) et en cls (← tyAt tbl c "any") (← tyAt tbl c "void")
+          (← strs "black") (← strs "tvnames") (← tyListAt tbl c "insts")
+        let o ← c.getObjVal? "out"
+        let kind ← getStr o "kind"
+        let ot ← tyOptAt tbl o "t"
+        let args ← tyListAt tbl c "args"
+        let (pk, ok) := match plan with
+          | .funcRefOrLambda => ("funcRefOrLambda", kind == "Lambda" || kind == "FunctionReference")
+          | .trivial t => ("trivial", kind == "New" && structEqO (some t) ot && args.isEmpty)
+          | .bottom t => ("bottom", kind == "BottomConstant" && structEqO t ot)
+          | .new ty exp => ("new", kind == "New" && structEqO (some ty) ot && structEqL exp args)
+          | .error => ("error", false)
+        pure (Json.mkObj [("plan", Json.str pk), ("ok", Json.bool ok)]))
   | "check.wt" => some (do
       let (tbl, p) ← parseProgramObj j
       let lt ← parseLangTypes tbl j
